@@ -459,3 +459,8 @@ _app("C17", "; the number of open descriptors of the process is taken around eve
 _app("C18", "; odd threads also verify a token whose signature has the wrong length; an execution in which no thread reaches its next scheduling point within 20 s is reported (no-progress) instead of waiting for the per-case watchdog")
 _app("C19", "; an operation that makes 255 harmless changes in a row (256 with the next one)")
 _app("C20", "; jwt-verify --verbose --print=CMD / -v -p CMD with 1, 2 and 40 (thorough also 3 and 100) valid tokens, and with a bad one added, under a limit of 64 open descriptors")
+
+# ---------------------------------------------------------------- additions of round 15
+_app("C05", "; every fourth pair each has keys labelled for what they are used for (signer key_ops [sign] / checker [verify]; both [sign,verify]; use sig)")
+_app("C07", "; a ninth entry point: jwks_load_fromfp on a stream positioned after a line the caller has read")
+_app("C12", "; after every switch operation the child runs an HS256 and an ES256 round trip under the provider in force")
